@@ -23,6 +23,7 @@ ONE = mpf(1)
 BIG = mpf(2) ** 40
 SMALL = mpf(2) ** -40
 REL_MARGIN = mpf("1e-6")
+FIRST_ORDER_MAX = mpf("1e-7")
 RANGE_HI = mpf("1e300")
 RANGE_LO = mpf("1e-290")
 
@@ -337,6 +338,9 @@ class Evaluator:
 
     def _fun(self, a, v, dv):
         """value v = f(a), dv = f'(a)"""
+        if a.e > FIRST_ORDER_MAX and a.e > FIRST_ORDER_MAX * abs(a.v):
+            # the argument's own uncertainty is too large for a first-order bound to mean anything
+            raise Undecidable("argument error too large for a first-order bound")
         e = abs(dv) * a.e + 4 * U * abs(v)
         if self.want_d and a.d is not None:
             return Val(v, e, False, dv * a.d, abs(dv) * a.dm)
@@ -345,8 +349,12 @@ class Evaluator:
     def f_exp(self, a):
         if abs(a.v) > 600:
             raise Undefined("exp overflow")
+        if a.e > mpf("1e-3"):
+            raise Undecidable("argument error too large for exp")
         v = ctx.exp(a.v)
-        return self._fun(a, v, v)
+        r = self._fun(a, v, v)
+        r.e += v * a.e * a.e
+        return r
 
     def f_log(self, a):
         if a.v <= 0:
@@ -377,16 +385,27 @@ class Evaluator:
         v = ctx.sqrt(a.v)
         return self._fun(a, v, 1 / (2 * v))
 
+    def _periodic_ok(self, a):
+        if a.e > FIRST_ORDER_MAX:
+            raise Undecidable("argument error too large for a periodic function")
+
     def f_sin(self, a):
-        return self._fun(a, ctx.sin(a.v), ctx.cos(a.v))
+        self._periodic_ok(a)
+        r = self._fun(a, ctx.sin(a.v), ctx.cos(a.v))
+        r.e += a.e * a.e
+        return r
 
     def f_cos(self, a):
-        return self._fun(a, ctx.cos(a.v), -ctx.sin(a.v))
+        self._periodic_ok(a)
+        r = self._fun(a, ctx.cos(a.v), -ctx.sin(a.v))
+        r.e += a.e * a.e
+        return r
 
     def f_atan(self, a):
         return self._fun(a, ctx.atan(a.v), 1 / (1 + a.v * a.v))
 
     def f_tan(self, a):
+        self._periodic_ok(a)
         c = ctx.cos(a.v)
         if abs(c) < REL_MARGIN:
             raise Undefined("tan near pole")
